@@ -160,6 +160,31 @@ def resolve_offsets(gaf_path, offsets):
     return out
 
 
+def resolve_offsets_api(gaf_path, offsets):
+    """offset -> query name returned by GAF.read_line on ONE reader object whose read_file() was iterated for one record first"""
+    from gaftools.gaf import GAF
+
+    out = {}
+    gaf = None
+    try:
+        gaf = GAF(gaf_path)
+        for _ in gaf.read_file():
+            break
+    except Exception as e:
+        return {o: f"{type(e).__name__}: {e}" for o in offsets}
+    for off in offsets:
+        try:
+            a = gaf.read_line(off)
+            out[off] = a.query_name if a is not None else "None"
+        except Exception as e:
+            out[off] = f"{type(e).__name__}: {e}"
+    try:
+        gaf.close()
+    except Exception:
+        pass
+    return out
+
+
 def pad_records(recs, target_bytes):
     """append a long zz:Z: tag to each record so that the file exceeds target_bytes"""
     if not recs:
